@@ -609,6 +609,19 @@ def point_overlaps(ctx, b):
                 if got != want:
                     viol(f"query over {dims} with where={where!r} selects visits {got}; the regions that contain the point are those of {want}",
                          f"point:{dims}:{ra}:{dec}", {"kind": "point-overlap", "dims": dims, "where": where})
+            # the same constraint on a query that is materialised first and read (and constrained further) afterwards
+            for label, run_ in (("where(...).materialize().data_ids", lambda: q.where(where).materialize().data_ids(["visit"])),
+                                ("where(...).materialize().where(...)", lambda: q.where(where).materialize().data_ids(["visit"]).where("instrument = 'I' AND visit > 0")),
+                                ("where(...).materialize().dimension_records", lambda: q.where(where).materialize().dimension_records("visit"))):
+                ctx.evaluations += 1
+                ctx.count("point-overlap:materialized")
+                try:
+                    got = sorted({(d["visit"] if hasattr(d, "mapping") else d.id) for d in run_()})
+                except Exception as e:
+                    got = f"{type(e).__name__}: {str(e)[:80]}"
+                if got != want:
+                    viol(f"query.{label} with where={where!r} selects visits {got}; the regions that contain the point are those of {want}",
+                         f"point-materialized:{label}:{ra}:{dec}", {"kind": "point-overlap", "form": label, "where": where})
             try:
                 got = sorted(r_.id for r_ in q.dimension_records("visit").where(where))
             except Exception as e:
